@@ -11,6 +11,7 @@ PROP = {
              "window is full or the new one empty, or >=2 groups of one remedy are active in one window (sequential unit); >=2 "
              "counters with >=1 rejection (isolation unit); a burst that is partly admitted (burst unit); distinct = canonical JSON of the case"),
     "assumptions": [
+        "unit TestThrottlingBehindAccountOrchestration: the throttling remedy at the end of a remedy chain, through runner.DispatchOnRequest: the clients send no group header, the header it groups by is the token header an account_orchestration remedy in front of it puts on the request (accounts listed so that the round robin hands request i the group value of step i; what an admitted request was sent on with is read back from the action and must be that value); verdicts judged by the same per-window, per-group reference as the plugin-level units",
         "the gateway's log level (LOG_LEVEL: off in three cases of eight, else error / info / debug / trace; what is logged is thrown away, what a log statement does to build its arguments happens) is a generated part of every case of TestSequentialWindows and TestBurst: no answer may depend on it; a failing case reports its level",
         "spill-over (spillover_config.enabled) is out of scope: it changes the allowed count per window by design and is always disabled here",
         "only code that reads the injected clock is covered; nothing on this path calls time.Now() directly (checked: the harness fails if the path registers clock timers)",
@@ -26,6 +27,7 @@ PROP = {
         {"pkg": "c09", "test": "TestSequentialWindows", "quick": 20000, "thorough": 100000, "shards": 16},
         {"pkg": "c09", "test": "TestIsolation", "quick": 6000, "thorough": 30000, "shards": 8},
         {"pkg": "c09", "test": "TestBurst", "quick": 16000, "thorough": 30000, "shards": 8},
+        {"pkg": "c09", "test": "TestThrottlingBehindAccountOrchestration", "quick": 1500, "thorough": 20000, "shards": 8},
         {"pkg": "c09", "test": "TestWitnessBoundaryInstant", "kind": "plain"},
         {"pkg": "c09", "test": "TestRegressionMetricsReadAfterResize", "kind": "plain"},
     ],
